@@ -400,6 +400,38 @@ def r3_syspath_pairing(ctx):
                    'no use of %s[%s] on the path that follows the failed bounds test' % (lst, idx) if hit is None else
                    'the bounds test `%s` has just established that the index is out of range, yet %s[%s] is evaluated on the path that follows: IndexError inside __exit__ skips the recovery code and the inserted directory stays in sys.path'
                    % (ctx.src(t.ast), lst, idx), witness=wit, anchor=PPC + '.__exit__')
+    # (c') a test that only excludes len(L) < I still admits I == len(L): every use of L[I] in a function that tests the
+    # bound at all must be dominated by a test that implies I < len(L)
+    weak_pairs = {}
+    for t in g.nodes:
+        if t.kind == 'test' and not t.dup:
+            for e in ast.walk(t.ast):
+                w = _weak_bounds_test(e)
+                bt = _bounds_test(e) if isinstance(e, (ast.Compare, ast.UnaryOp)) else None
+                if w is not None:
+                    weak_pairs.setdefault((w[0], w[1]), []).append(t)
+                if bt is not None:
+                    weak_pairs.setdefault((bt[0], bt[1]), [])
+    for m in g.nodes:
+        if m.kind not in ('stmt', 'test') or m.dup:
+            continue
+        for sub in ast.walk(m.ast):
+            if isinstance(sub, ast.Subscript) and isinstance(sub.ctx, ast.Load):
+                key = (ast.unparse(sub.value), ast.unparse(sub.slice))
+                if key not in weak_pairs or not weak_pairs[key]:
+                    continue
+                strong = False
+                for gb in dom.guards(m):
+                    if gb.kind == 'branch' and gb.attrs['test'].kind == 'test':
+                        for fa in graph.facts_of(gb.attrs['test'].ast, gb.attrs['polarity']):
+                            bt2 = _bounds_test(fa.expr) if isinstance(fa.expr, ast.AST) else None
+                            if bt2 and (bt2[0], bt2[1]) == key and fa.polarity != bt2[2]:
+                                strong = True
+                wt = weak_pairs[key][0]
+                rep.ob('C12.R3c', ctx.loc(fexit, sub), ctx.src(sub) + ' under ' + ctx.src(wt.ast), strong,
+                       'dominated by a test implying index < len' if strong else
+                       'the only bounds test `%s` still admits index == len(%s): %s raises IndexError inside __exit__ when the list shrank by exactly one entry, '
+                       'the recovery code is skipped and the inserted directory stays in sys.path' % (ctx.src(wt.ast), key[0], ctx.src(sub)), anchor=PPC + '.__exit__')
     rep.note('bounds_tests_in_exit', n_tests)     # a CONTRADICTION rule: no bounds test, no contradiction
 
 
@@ -425,6 +457,20 @@ def _bounds_test(e):
                 return lst, idx, True
             if isinstance(op, ast.Lt):       # I < len(L)
                 return lst, idx, False
+    return None
+
+
+def _weak_bounds_test(e):
+    """(list text, index text) for tests that exclude only len(L) < I:  len(L) < I,  I > len(L),  and their negations len(L) >= I, I <= len(L)"""
+    if isinstance(e, ast.Compare) and len(e.ops) == 1:
+        l, op, r = e.left, e.ops[0], e.comparators[0]
+
+        def is_len(x):
+            return isinstance(x, ast.Call) and is_name(x.func, 'len') and len(x.args) == 1
+        if is_len(l) and not is_len(r) and isinstance(op, (ast.Lt, ast.GtE)):
+            return ast.unparse(l.args[0]), ast.unparse(r)
+        if is_len(r) and not is_len(l) and isinstance(op, (ast.Gt, ast.LtE)):
+            return ast.unparse(r.args[0]), ast.unparse(l)
     return None
 
 
@@ -471,6 +517,7 @@ UI = 'xdoctest/utils/util_import.py'
 RN = 'xdoctest/runner.py'
 CO = 'xdoctest/core.py'
 VARIANTS = [
+    fire('bounds-test-off-by-one', 'C12.R3c', ('xdoctest/utils/util_import.py', "        if len(sys.path) <= self.index:  # nocover\n", "        if len(sys.path) < self.index:  # nocover\n")),
     fire('stdout-store-in-runner', 'C12.R1', (RN, "    n_total = len(enabled_examples)\n", "    n_total = len(enabled_examples)\n    sys.stdout = sys.__stdout__\n")),
     fire('syspath-insert-in-core', 'C12.R1', (CO, "        pkgpath = _rectify_to_modpath(pkg_identifier)\n", "        pkgpath = _rectify_to_modpath(pkg_identifier)\n        sys.path.insert(0, pkgpath)\n")),
     fire('syspath-alias-append', 'C12.R1',
